@@ -326,8 +326,25 @@ func randCanonical(r *hx.Rand, typ, kind int) fileid.FileID {
 
 func b64(b []byte) string { return base64.RawURLEncoding.EncodeToString(b) }
 
+// rleB64 builds a file-id string from a raw body through the exported rleEncode; a panic in
+// it is an rle violation with the body as replay, not a harness crash.
+func rleB64(why string, body []byte) (string, bool) {
+	var s string
+	if p, _ := hx.Recover(func() { s = b64(fileid.VerifRLEEncode(body)) }); p {
+		c.Violate("rle-panic", fmt.Sprintf("rleEncode panicked on %x (%s)", body, why), -1, 0, caseJS{Mode: 2, Raw: body, Why: why})
+		return "", false
+	}
+	return s, true
+}
+
 func main() {
 	c = hx.Start("C38", "Run.Check_C38", 300)
+	defer func() { // a panic that escaped a per-case wrapper becomes a violation, obs.json is still written
+		if v := recover(); v != nil {
+			c.Violate("panic-outside-case-wrapper", fmt.Sprintf("a call into the implementation panicked outside a case wrapper: %v", v), -1, 0, nil)
+			c.Finish()
+		}
+	}()
 	var rp caseJS
 	if c.LoadReplay(&rp) {
 		switch rp.Mode {
@@ -340,9 +357,13 @@ func main() {
 			st, g := runDecode(s)
 			fmt.Printf("replay: EncodeFileID(%s) = %s; decode status=%d %s\n", describe(*rp.ID), short(s), st, describe(g))
 		case 2:
-			enc := fileid.VerifRLEEncode(rp.Raw)
-			dec := fileid.VerifRLEDecode(enc)
-			fmt.Printf("replay: rleEncode(%d bytes, zero run %d) = %x; rleDecode gives %d bytes, equal=%v\n", len(rp.Raw), maxZeroRun(rp.Raw), enc, len(dec), bytes.Equal(dec, rp.Raw))
+			if p, v := hx.Recover(func() {
+				enc := fileid.VerifRLEEncode(rp.Raw)
+				dec := fileid.VerifRLEDecode(enc)
+				fmt.Printf("replay: rleEncode(%d bytes, zero run %d) = %x; rleDecode gives %d bytes, equal=%v\n", len(rp.Raw), maxZeroRun(rp.Raw), enc, len(dec), bytes.Equal(dec, rp.Raw))
+			}); p {
+				fmt.Printf("replay: rleEncode/rleDecode panicked: %v\n", v)
+			}
 			rleCase("replay", rp.Raw, true)
 		case 3:
 			rleDecodeCase("replay", rp.Raw, true)
@@ -475,42 +496,52 @@ func main() {
 		case 2: // random binary body with a plausible version byte
 			body := r.Bytes(r.Intn(60))
 			body = append(body, []byte{4, 4, 4, 2, 3, 0, 5, 255}[r.Intn(8)])
-			decodeCase("random-body", b64(fileid.VerifRLEEncode(body)), i%2 == 0)
+			if s, ok := rleB64("random-body", body); ok {
+				decodeCase("random-body", s, i%2 == 0)
+			}
 		default: // structured body with legacy sub-versions
 			var buf bin.Buffer
-			typ := uint32(r.Intn(3))
-			if r.Chance(1, 4) {
-				typ = uint32(r.Intn(20))
+			built, _ := hx.Recover(func() {
+				typ := uint32(r.Intn(3))
+				if r.Chance(1, 4) {
+					typ = uint32(r.Intn(20))
+				}
+				hasRef, web := r.Chance(1, 3), r.Chance(1, 8)
+				t := typ
+				if hasRef {
+					t |= 1 << 25
+				}
+				if web {
+					t |= 1 << 24
+				}
+				buf.PutUint32(t)
+				buf.PutUint32(uint32(r.Range(1, 5)))
+				if hasRef {
+					buf.PutBytes(r.Bytes(r.Intn(12)))
+				}
+				if web {
+					buf.PutString("http://x")
+				} else {
+					buf.PutLong(randI64(r))
+					buf.PutLong(randI64(r))
+				}
+				if r.Chance(3, 4) {
+					buf.PutInt(r.Range(-1, 11))
+				}
+				buf.Buf = append(buf.Buf, r.Bytes(4*r.Intn(10))...)
+				if r.Chance(1, 5) {
+					buf.Buf = append(buf.Buf, r.Bytes(r.Intn(4))...)
+				}
+				sub := []byte{0, 3, 4, 21, 22, 31, 32, 34, 35, 255, byte(r.U64())}[r.Intn(11)]
+				buf.Buf = append(buf.Buf, sub, 4)
+			})
+			if built {
+				c.Violate("panic-building-input", "bin.Buffer Put* panicked while building a legacy-body input", -1, 0, caseJS{Mode: 0, Why: "legacy-body"})
+				continue
 			}
-			hasRef, web := r.Chance(1, 3), r.Chance(1, 8)
-			t := typ
-			if hasRef {
-				t |= 1 << 25
+			if s, ok := rleB64("legacy-body", buf.Buf); ok {
+				decodeCase("legacy-body", s, true)
 			}
-			if web {
-				t |= 1 << 24
-			}
-			buf.PutUint32(t)
-			buf.PutUint32(uint32(r.Range(1, 5)))
-			if hasRef {
-				buf.PutBytes(r.Bytes(r.Intn(12)))
-			}
-			if web {
-				buf.PutString("http://x")
-			} else {
-				buf.PutLong(randI64(r))
-				buf.PutLong(randI64(r))
-			}
-			if r.Chance(3, 4) {
-				buf.PutInt(r.Range(-1, 11))
-			}
-			buf.Buf = append(buf.Buf, r.Bytes(4*r.Intn(10))...)
-			if r.Chance(1, 5) {
-				buf.Buf = append(buf.Buf, r.Bytes(r.Intn(4))...)
-			}
-			sub := []byte{0, 3, 4, 21, 22, 31, 32, 34, 35, 255, byte(r.U64())}[r.Intn(11)]
-			buf.Buf = append(buf.Buf, sub, 4)
-			decodeCase("legacy-body", b64(fileid.VerifRLEEncode(buf.Buf)), true)
 		}
 	}
 	c.Obs.Rule = "evaluation = one EncodeFileID(+DecodeFileID round trip), one DecodeFileID of a string, or one rleEncode/rleDecode call; non-trivial = distinct encode case, rle case, or decode case that gets past base64 (status other than empty/base64 error)"
